@@ -199,8 +199,9 @@ def chain_sources(attrs, imps, docs):
         extra_c = "Root = _m.Up\nclass C2(Root):\n    '''C2'''\n"
     return {
         "pkg": ("'''pkg'''\n", True),
-        # (the root of the chain is an exception class in half of the cases: the kind EXCEPTION of B and C is derived in post-processing)
-        "pkg.ma": ("class A%s:\n" % ("(Exception)" if attrs[2] % 2 == 0 else "") + body(0, "A"), False),
+        # (the root of the chain is an exception class in half of the cases, a zope interface in one sixth: the kinds EXCEPTION / INTERFACE of B and C are derived from their bases)
+        "pkg.ma": (("from zope.interface import Interface\n" if attrs[2] == 1 else "") +
+                   "class A%s:\n" % ("(Exception)" if attrs[2] % 2 == 0 else "(Interface)" if attrs[2] == 1 else "") + body(0, "A"), False),
         # mb also imports A under another name: a name mb does not define itself
         "pkg.mb": (ia + "from pkg.ma import A as Up\nclass B(%s):\n" % ba + body(1, "B"), False),
         "pkg.mc": (ib + "class C(%s):\n" % bb + body(2, "C") + extra_c, False),
@@ -237,7 +238,7 @@ from pydoctor import model  # noqa: E402
 @harness(
     parts=lambda: [[a, b] for a in range(NCA) for b in range(NCA)], timeout=(240, 1200), cls="E", tracing="concrete-after-choice", twin="first",
     code=["pydoctor.model.defaultPostProcess", "_inherits_instance_variable_kind", "Inheritable.docsources", "Class._init_mro / compute_mro / init_finalbaseobjects", "pydoctor.astbuilder.ModuleVistor.visit_Import/visit_ImportFrom (on-demand processing)", "System.process / processModule"],
-    bounds={"quick": "a three-class chain A <- B <- C over three sibling modules, A an exception class or not; attribute v per class absent / class variable / instance variable / each with docstring / property (216 combinations); import form of each base plain / from / through the package / sub-module imported under an alias, with a module-level alias of a re-imported name as a second base (16); all 6 analysis orders; class and method docstrings present on a subset (quick: one fixed subset, thorough: 8 subsets)",
+    bounds={"quick": "a three-class chain A <- B <- C over three sibling modules, A an exception class, a zope interface or a plain class; attribute v per class absent / class variable / instance variable / each with docstring / property (216 combinations); import form of each base plain / from / through the package / sub-module imported under an alias, with a module-level alias of a re-imported name as a second base (16); all 6 analysis orders; class and method docstrings present on a subset (quick: one fixed subset, thorough: 8 subsets)",
             "thorough": "same x 8 subsets of docstrings"},
     outside="chains longer than three; diamonds (C05 decides linearisations); several roots",
 )
